@@ -36,7 +36,7 @@ from unified_planning.model.problem_kind_versioning import LATEST_PROBLEM_KIND_V
 from unified_planning.model.walkers.free_vars import FreeVarsExtractor
 from unified_planning.engines.compilers.utils import replace_action
 from fractions import Fraction
-from typing import Optional, Union, List, Dict, Set
+from typing import Optional, Union, List, Dict, Set, Tuple
 from functools import partial
 from collections import defaultdict
 
@@ -279,28 +279,38 @@ class UndefinedInitialNumericRemover(engines.engine.Engine, CompilerMixin):
                         if fluent_exp.fluent() in is_value_defined_fluents:
                             undef_fluent_exps.add(fluent_exp)
 
-                # fluents that are the target of some effect of this action
-                affected_undef_fluent_exps = set()
-                for eff in action.effects:
-                    if eff.fluent.fluent() in is_value_defined_fluents:
-                        affected_undef_fluent_exps.add(eff.fluent)
+                # effects of this action whose target is one of those fluents
+                affecting_effects = [
+                    eff
+                    for eff in action.effects
+                    if eff.fluent.fluent() in is_value_defined_fluents
+                ]
 
                 for fluent_exp in undef_fluent_exps:
                     action.add_precondition(
                         is_value_defined_fluents[fluent_exp.fluent()](*fluent_exp.args)
                     )
 
-                for fluent_exp in affected_undef_fluent_exps:
+                added = set()
+                for eff in affecting_effects:
+                    fluent_exp = eff.fluent
                     # if this ground instance was already read above (increase/decrease
                     # effects always are), its tracker is already a precondition and is
                     # therefore already guaranteed to be True; no need to set it again
-                    if fluent_exp not in undef_fluent_exps:
-                        action.add_effect(
-                            is_value_defined_fluents[fluent_exp.fluent()](
-                                *fluent_exp.args
-                            ),
-                            True,
-                        )
+                    if fluent_exp in undef_fluent_exps:
+                        continue
+                    # the value becomes defined only when the effect fires: the tracker
+                    # is set under the effect's own condition (and quantification)
+                    key = (fluent_exp, eff.condition, tuple(eff.forall))
+                    if key in added:
+                        continue
+                    added.add(key)
+                    action.add_effect(
+                        is_value_defined_fluents[fluent_exp.fluent()](*fluent_exp.args),
+                        True,
+                        eff.condition,
+                        eff.forall,
+                    )
 
             elif isinstance(action, DurativeAction):
                 # same idea as above, but expressions must be attributed to the timing
@@ -310,7 +320,7 @@ class UndefinedInitialNumericRemover(engines.engine.Engine, CompilerMixin):
                 for timeinterval, conditions in action.conditions.items():
                     timing_to_expressions[timeinterval.lower] += conditions
 
-                affected_undef_fluent_exps_map: Dict[Timing, Set[FNode]] = defaultdict(
+                affected_undef_fluent_exps_map: Dict[Timing, Set[Tuple]] = defaultdict(
                     set
                 )
                 for timing, effects in action.effects.items():
@@ -322,7 +332,7 @@ class UndefinedInitialNumericRemover(engines.engine.Engine, CompilerMixin):
                     ]
                     timing_to_expressions[timing] += [eff.condition for eff in effects]
                     affected_undef_fluent_exps_map[timing].update(
-                        eff.fluent
+                        (eff.fluent, eff.condition, tuple(eff.forall))
                         for eff in effects
                         if eff.fluent.fluent() in is_value_defined_fluents
                     )
@@ -350,10 +360,11 @@ class UndefinedInitialNumericRemover(engines.engine.Engine, CompilerMixin):
                             ),
                         )
 
-                for timing, fluent_exps in affected_undef_fluent_exps_map.items():
-                    for fluent_exp in fluent_exps:
+                for timing, affecting in affected_undef_fluent_exps_map.items():
+                    for fluent_exp, condition, forall in affecting:
                         # see the InstantaneousAction case above: skip if already read
-                        # (and thus already required to be defined) at this same timing
+                        # (and thus already required to be defined) at this same timing;
+                        # the tracker is set under the effect's own condition
                         if fluent_exp not in timing_to_undef_fluent_exps.get(
                             timing, set()
                         ):
@@ -363,6 +374,8 @@ class UndefinedInitialNumericRemover(engines.engine.Engine, CompilerMixin):
                                     *fluent_exp.args
                                 ),
                                 True,
+                                condition,
+                                forall,
                             )
 
     def _compile_goals(
@@ -392,7 +405,7 @@ class UndefinedInitialNumericRemover(engines.engine.Engine, CompilerMixin):
         for timeinterval, goals in problem.timed_goals.items():
             timing_to_expressions[timeinterval.lower].extend(goals)
 
-        affected_undef_fluent_exps: Dict[Timing, Set[FNode]] = defaultdict(set)
+        affected_undef_fluent_exps: Dict[Timing, Set[Tuple]] = defaultdict(set)
         for timing, effects in problem.timed_effects.items():
             for eff in effects:
                 timing_to_expressions[timing].append(eff.value)
@@ -401,7 +414,7 @@ class UndefinedInitialNumericRemover(engines.engine.Engine, CompilerMixin):
                     timing_to_expressions[timing].append(eff.fluent)
 
                 affected_undef_fluent_exps[timing].update(
-                    eff.fluent
+                    (eff.fluent, eff.condition, tuple(eff.forall))
                     for eff in effects
                     if eff.fluent.fluent() in is_value_defined_fluents
                 )
@@ -420,13 +433,15 @@ class UndefinedInitialNumericRemover(engines.engine.Engine, CompilerMixin):
                     is_value_defined_fluents[fluent_exp.fluent()](*fluent_exp.args),
                 )
 
-        for timing, fluent_exps in affected_undef_fluent_exps.items():
-            for fluent_exp in fluent_exps:
+        for timing, affecting in affected_undef_fluent_exps.items():
+            for fluent_exp, condition, forall in affecting:
                 if fluent_exp not in timing_to_undef_fluent_exps.get(timing, set()):
                     problem.add_timed_effect(
                         timing,
                         is_value_defined_fluents[fluent_exp.fluent()](*fluent_exp.args),
                         True,
+                        condition,
+                        forall,
                     )
 
     def _compile_quality_metrics(
